@@ -38,7 +38,8 @@ RESOURCE = ("rlimit", "resource limit", "timed out", "timeout")
 
 TL_RE = re.compile(r"/\*@TL:([A-Za-z_]+)::([A-Za-z_]+):([A-Za-z0-9_]+)\*/")
 ASSUME_RE = re.compile(
-    r"(external_body|assume_specification|\baxiom\s+fn\b|\badmit\s*\(|\bassume\s*\(|external_fn_specification|external_type_specification)")
+    r"(external_body|assume_specification|\baxiom\s+fn\b|\badmit\s*\(|\bassume\s*\(|external_fn_specification|"
+    r"external_type_specification|external_trait_specification|\buninterp\s+spec\s+fn\b|verifier::external\b)")
 
 
 def scan_assumptions(text):
